@@ -28,7 +28,7 @@ REQUIRED_MONITORS = ["matches_documented_rotation", "rotation_invariance", "inve
 REQUIRED_BUCKETS = {"quick": ["jitter:0", "jitter:1", "jitter:2", "jitter:3", "size_pd:0", "size_pd:>=2",
                               "angle:theta0", "angle:theta90", "angle:theta180", "angle:near360", "asymmetric",
                               "symmetric", "lane:asan", "angle_without_loop_slot",
-                              "mesh>100:size-innermost", "jitter:one-point-with-width", "sequence:one-angle-changed", "over-budget:refused", "entry:sasview-shared-disperser-object"]}
+                              "mesh>100:size-innermost", "jitter:one-point-with-width", "sequence:one-angle-changed", "over-budget:refused", "entry:sasview-shared-disperser-object", "entry:sasview-tabulated-jitter"]}
 REQUIRED_BUCKETS["thorough"] = REQUIRED_BUCKETS["quick"]
 
 
@@ -220,6 +220,32 @@ def run_oriented(case, rec):
                   None if oks else dict(ctx, entry="SasviewModel, one disperser object handed to set_dispersion for %s and %s, then %s.width=%g, %s.width=0"
                                         % (a1, a2, a1, w1, a2), observed=Isv, expected=refs, max_rel_err=core.maxrel(Isv, refs, 1e-10*I0)))
         rec.bucket("entry:sasview-shared-disperser-object")
+    # (0c) a tabulated jitter distribution (values and weights read from a file) handed to the SasView-style object
+    if k % 6 == 4 and angles and not over:
+        from sasmodels import sasview_model, weights as sasweights
+        m_ = sasview_model._make_standard_model(name)()
+        for kk, vv in pars.items():
+            if not kk.endswith(("_pd", "_pd_n", "_pd_nsigma", "_pd_type")):
+                m_.setParam(kk, vv)
+        a1 = angles[int(rng.integers(len(angles)))]
+        tv = np.sort(rng.uniform(-35, 35, int(rng.integers(3, 7))))
+        tw = rng.uniform(0.2, 3.0, len(tv))
+        tab = sasweights.ArrayDispersion()
+        tab.set_weights(tv.copy(), tw.copy())
+        m_.set_dispersion(a1, tab)
+        m_.cutoff = 0.0
+        Itab = np.asarray(m_.evalDistribution([qx.copy(), qy.copy()]), float)
+        ps = {kk: vv for kk, vv in pars.items() if not kk.endswith(("_pd", "_pd_n", "_pd_nsigma", "_pd_type"))}
+        mesh_t = list(direct_model.get_mesh(i, ps, dim="2d"))
+        ia = [q_.name for q_ in i.parameters.call_parameters].index(a1)
+        mesh_t[ia] = (ps[a1], tv, tw)
+        reft, _ = oracle.intensity(mesh_t, (qx, qy), "2d", 0.0)
+        I0t = float(np.max(np.abs(reft - ps.get("background", 0))))
+        okt = core.close(Itab, reft, 1e-8, 1e-10*I0t)
+        rec.check("matches_documented_rotation", okt,
+                  None if okt else dict(ctx, entry="SasviewModel with a tabulated distribution of %s jitter angles" % a1, table=[tv, tw],
+                                        observed=Itab, expected=reft, max_rel_err=core.maxrel(Itab, reft, 1e-10*I0t)))
+        rec.bucket("entry:sasview-tabulated-jitter")
     # (i) rotate the detector point and phi by the same angle
     delta = float(rng.uniform(-170, 170))
     c, s = math.cos(math.radians(delta)), math.sin(math.radians(delta))
